@@ -97,10 +97,14 @@ def gen_script(rng, cfg, pnames=("P1",)):
         stop = {"kind": "always"}
     elif r < 0.65:
         stop = {"kind": "rep_lt", "r0": rng.randint(1, rm + 1)}
-    elif r < 0.9:
+    elif r < 0.88:
         stop = {"kind": "cnt_lt", "E": rng.randint(1, 4 * rm + 2)}
-    else:
+    elif r < 0.94:
         stop = {"kind": "ratio_gt", "q": rng.choice([0.5, 1.0, 1.5, 2.5])}
+    elif r < 0.97:
+        stop = {"kind": "skips_lt", "S": rng.randint(1, 3)}            # give up after S skipped repetitions
+    else:
+        stop = {"kind": "time_lt", "T": dur_default * rng.randint(1, rm + 2) + 0.5}   # a (virtual) time budget per variation
     return {"skips": skips, "dur_default": dur_default, "durs": durs, "stop": stop}
 
 
